@@ -17,6 +17,7 @@ import (
 	"strings"
 
 	"github.com/specterops/dawgs/cypher/models/cypher"
+	"github.com/specterops/dawgs/cypher/models/pgsql/optimize"
 	"github.com/specterops/dawgs/graph"
 )
 
@@ -28,20 +29,46 @@ type Finding struct {
 
 // ExcludedBy returns the slug of the first finding that is open (according to isOpen, which receives the
 // slug) and whose predicate matches; "" when the case is to be evaluated.
+//
+// The SQL is generated from the query the optimiser's rewrite rules leave behind (pattern parts reordered or
+// reversed, predicates attached), so a shape that only exists after the rewrite reaches the same root cause: both
+// the query as written and the rewritten query are tested.
 func ExcludedBy(c Case, model *cypher.RegularQuery, isOpen func(slug string) bool) string {
-	var shape *Shape
+	var shape, rewritten *Shape
 	for _, f := range Findings {
 		if !isOpen(f.Slug) {
 			continue
 		}
 		if shape == nil {
 			shape = Analyse(c, model)
+			rewritten = rewrittenShape(c, model)
 		}
-		if f.Match(shape) {
+		if f.Match(shape) || (rewritten != nil && f.Match(rewritten)) {
 			return f.Slug
 		}
 	}
 	return ""
+}
+
+// rewrittenShape: the shape of the optimiser's rewritten query, nil when no rule applied (or the optimiser failed).
+func rewrittenShape(c Case, model *cypher.RegularQuery) (shape *Shape) {
+	defer func() {
+		if recover() != nil {
+			shape = nil
+		}
+	}()
+	plan, err := optimize.Optimize(model)
+	if err != nil || plan.Query == nil {
+		return nil
+	}
+	applied := false
+	for _, r := range plan.Rules {
+		applied = applied || r.Applied
+	}
+	if !applied {
+		return nil
+	}
+	return Analyse(c, plan.Query)
 }
 
 // ---------------------------------------------------------------------------------------------------
@@ -811,12 +838,27 @@ func ExpansionOnSelfLoopGraph(q *Shape) bool {
 // bindings exist and whose MATCH has a WHERE reading an earlier binding other than the step's own endpoints.
 // It reports (some such part has a bound endpoint, some such part has an unbound endpoint).
 func (s *Shape) expansionRootAndForeignPredicate() (boundRoot, unboundRoot bool) {
+	// A pattern predicate in the WHERE of an earlier MATCH of the same part is rendered by the frame of the NEXT
+	// clause (PatternPredicateBeforeBoundary): for an expansion that follows it is a predicate over foreign variables
+	// like one written in the expansion's own WHERE.
+	inherits := map[*MatchShape]bool{}
+	for _, p := range s.Parts {
+		floating := false
+		for _, m := range p.Matches {
+			if floating {
+				inherits[m] = true
+			}
+			if m.Match != nil && m.Match.Where != nil && hasPatternPredicate(m.Match.Where) {
+				floating = true
+			}
+		}
+	}
 	s.walkParts(func(m *MatchShape, i int, ps *PatternShape, bound map[string]bool) {
-		if m.Match == nil || m.Match.Where == nil || len(ps.Rels) == 0 || !IsVarLength(ps.Rels[0]) || len(ps.Nodes) < 2 || len(bound) == 0 {
+		if m.Match == nil || (m.Match.Where == nil && !inherits[m]) || len(ps.Rels) == 0 || !IsVarLength(ps.Rels[0]) || len(ps.Nodes) < 2 || len(bound) == 0 {
 			return
 		}
 		left, right := varName(ps.Nodes[0].Variable), varName(ps.Nodes[1].Variable)
-		foreign := false
+		foreign := inherits[m]
 		Visit(m.Match.Where, func(n any) bool {
 			if v, ok := n.(*cypher.Variable); ok && v != nil && v.Symbol != left && v.Symbol != right && bound[v.Symbol] {
 				foreign = true
@@ -925,6 +967,94 @@ func ExactRangeIntoBoundNode(q *Shape) bool {
 			}
 		}
 	})
+	return found
+}
+
+func init() {
+	Findings = append(Findings, Finding{"continuation-step-rejoins-carried-node", ContinuationStepIntoCarriedNode})
+}
+
+// ContinuationStepIntoCarriedNode: the third way to reach buildTraversalPatternStep without an expand-into decision
+// (see ExactRangeIntoBoundNode). Expand-into decisions only look at the symbols declared by the MATCH clauses of the
+// SAME query part (optimize/lowering_plan.go appendExpandIntoDecisions starts every part with an empty set and
+// skips UNWIND): a fixed continuation step whose right node restates a variable carried in by WITH, or bound by
+// UNWIND, gets no decision and joins the node table unconstrained, e.g. MATCH (x) WITH x MATCH (a)-[r]->(b)-[s]->(x).
+func ContinuationStepIntoCarriedNode(s *Shape) bool {
+	found := false
+	bound := map[string]bool{}
+	for _, p := range s.Parts {
+		declared := map[string]bool{} // what appendExpandIntoDecisions knows in this part
+		mi := 0
+		for _, rc := range p.Clauses {
+			if rc == nil {
+				continue
+			}
+			if rc.Match != nil {
+				m := p.Matches[mi]
+				mi++
+				for _, ps := range m.Parts {
+					if m.Match != nil && !m.Match.Optional {
+						for k, r := range ps.Rels {
+							if k == 0 || IsVarLength(r) || k+1 >= len(ps.Nodes) {
+								continue
+							}
+							right := varName(ps.Nodes[k+1].Variable)
+							if right == "" || !bound[right] || declared[right] {
+								continue
+							}
+							earlierInPattern := false
+							for _, earlier := range ps.Nodes[:k+1] {
+								if varName(earlier.Variable) == right {
+									earlierInPattern = true
+								}
+							}
+							if !earlierInPattern {
+								found = true
+							}
+						}
+					}
+					for _, n := range ps.Nodes {
+						if v := varName(n.Variable); v != "" {
+							bound[v], declared[v] = true, true
+						}
+					}
+					for _, r := range ps.Rels {
+						if v := varName(r.Variable); v != "" {
+							bound[v], declared[v] = true, true
+						}
+					}
+					if ps.Part != nil {
+						if v := varName(ps.Part.Variable); v != "" {
+							bound[v], declared[v] = true, true
+						}
+					}
+				}
+			}
+			if rc.Unwind != nil {
+				if v := varName(rc.Unwind.Variable); v != "" {
+					bound[v] = true
+				}
+			}
+		}
+		if !p.IsReturn && p.Projection != nil {
+			next := map[string]bool{}
+			for _, it := range p.Projection.Items {
+				expr, alias := ItemExpr(it)
+				if alias != "" {
+					next[alias] = true
+				} else if v, ok := expr.(*cypher.Variable); ok && v != nil {
+					if v.Symbol == "*" {
+						for k := range bound {
+							next[k] = true
+						}
+					} else {
+						next[v.Symbol] = true
+					}
+				}
+			}
+			bound = next
+		}
+	}
 	return found
 }
 
